@@ -65,7 +65,17 @@ def run_case(c, rnd, tmp):
             elif noise == "diag":
                 kw["obs_models"] = observation_model_factory("gaussian-diagonal", dimension=dim)
             model = model_factory(kind, instance_name=("my-model_1" if iname == "custom" else None), **kw)
-            model.fit(data, "mcmc_saem", n_iter=4, seed=rnd.randrange(1000), progress_bar=False)
+            mem = {"fit_mem2": 2, "fit_mem3": 3}.get(origin, 1)
+            model.fit(data, "mcmc_saem", n_iter=3 + mem, n_burn_in_iter=3, seed=rnd.randrange(1000), progress_bar=False)
+            if origin == "edited":
+                # hand-written values put into the fitted model object itself
+                new = {}
+                for key, v in model.parameters.items():
+                    v = v.clone()
+                    if key.endswith("_mean") and v.dtype.is_floating_point:
+                        v = v + torch.tensor(np.float32(rnd.uniform(0.05, 0.15))) * (1 if rnd.random() < 0.5 else -1)
+                    new[key] = v.tolist()
+                model.load_parameters(new)
             rec["pop_at_mode"] = bool(pop_at_mode(model))
             rec["src_resolved"] = int(getattr(model, "source_dimension", 0) or 0)
             # derived quantities agree with the parameters that get saved: recompute from scratch on the state
